@@ -133,6 +133,39 @@ var propC02Huge = func() parserProp {
 
 func TestC02Huge(t *testing.T) { propC02Huge.run(t, Kinds) }
 
+// TestC02Skip: small windows and blocks in a buffer that holds several of them,
+// every third to fourth step a Parse(nil): the search structures are filled by
+// the skipping calls and by the parsing calls in turn, with data behind the
+// skipped block already buffered, and most candidates lie around the window
+// distance.
+var propC02Skip = func() parserProp {
+	pp := propC02
+	pp.tweak = func(t *rapid.T, c *PCfg) {
+		c.WindowSize = rapid.IntRange(1, 24).Draw(t, "skWindow")
+		if (c.Kind == "GSAP" || c.Kind == "OSAP") && c.WindowSize < maxInt(c.MinMatchLen, 3) {
+			c.WindowSize = maxInt(c.MinMatchLen, 3)
+		}
+		c.BlockSize = rapid.IntRange(2, 20).Draw(t, "skBlock")
+		if c.BufferSize != 0 && c.BufferSize < 48 {
+			c.BufferSize += 48
+		}
+		if c.ShrinkSize >= c.BufferSize && c.BufferSize != 0 {
+			c.ShrinkSize = 0
+		}
+	}
+	pp.opts = func(kind string) histOpts {
+		o := defaultHistOpts()
+		o.parseNil = 7
+		o.parse = 8
+		o.tinyPct = 35
+		o.zeroPct = 30
+		return o
+	}
+	return pp
+}()
+
+func TestC02Skip(t *testing.T) { propC02Skip.run(t, Kinds) }
+
 // ---------------------------------------------------------------- C03
 
 var propC03 = parserProp{
